@@ -13,6 +13,7 @@ import (
 	"verifharness/internal/rng"
 
 	"github.com/wolimst/lib-secs2-hsms-go/pkg/ast"
+	"github.com/wolimst/lib-secs2-hsms-go/pkg/parser/hsms"
 )
 
 // C03 — the decoder accepts exactly the well-formed messages and decodes
@@ -441,7 +442,59 @@ func runC03(c *ctx) {
 			}
 		}
 	}
-	c.Required = []string{"fault-seeds", "ref-accepts/valid/nest-with-siblings", "ref-rejects/append/item-behind-a-nest", "ref-accepts/valid/longer-than-16MiB", "ref-accepts/valid/nonminimal-single", "ref-rejects/truncate/patched", "ref-rejects/append/patched", "ref-rejects/control/with-text", "ref-accepts/set/length", "ref-rejects/set/length", "ref-rejects/set/format", "ref-accepts/random/item-soup"}
+	// round 10: one goroutine decodes a long run of frames that are refused INSIDE open lists (truncated, an 8-bit
+	// character, a NaN, a wait bit on a reply after the item was read) with a well-formed nested message after every
+	// few of them: the well-formed message is accepted, and decoded exactly, the 40,000th time as the first time
+	{
+		nest := func(depth int, bottom []byte) []byte {
+			body := bottom
+			for i := 0; i < depth; i++ {
+				body = append([]byte{0x01, 0x02, 0xA5, 0x01, byte(i)}, body...)
+			}
+			return body
+		}
+		good := wrapMsg(nest(12, []byte{0x41, 0x02, 'o', 'k'}))
+		_, goodAcc := ref.Decode(good)
+		var bad [][]byte
+		for _, d := range []int{1, 3, 7, 12, 20} {
+			bad = append(bad,
+				wrapMsg(nest(d, []byte{0x41, 0x02, 'o', 0x80})),                   // 8-bit character at the bottom
+				wrapMsg(nest(d, []byte{0x91, 0x04, 0x7F, 0xC0, 0x00, 0x00})),      // NaN at the bottom
+				wrapMsg(nest(d, []byte{0x41, 0x05, 'c', 'u', 't'})),               // text ends inside the bottom item
+				wrapMsg(nest(d, []byte{0x01, 0x03, 0xA5, 0x01, 0x01})),            // a list that lacks two of its elements
+				wrapMsg(append(nest(d, []byte{0x25, 0x01, 0x01}), 0xA5, 0x01, 9)), // an item left over behind the nest
+			)
+		}
+		for _, b := range bad {
+			if _, acc := ref.Decode(b); acc {
+				c.Inconclusive(fmt.Sprintf("the reference decoder accepts a frame of the refused-frames run: %x", b))
+			}
+		}
+		rounds := c.pick(9000, 60000)
+		failed := false
+		for round := 0; round < rounds && !failed && goodAcc; round++ {
+			for k := 0; k < 7; k++ {
+				b := bad[(round*7+k)%len(bad)]
+				var ok bool
+				o := real.Try(func() { _, ok = hsms.Parse(append([]byte(nil), b...)) })
+				if o.Panicked || ok {
+					c.Violation("C03/accepts-malformed/long-run", fmt.Sprintf("round %d: hsms.Parse(%x): ok=%v %s", round, clipB(b), ok, o), c03Case{Hex: hex.EncodeToString(b), Fault: "long-run"})
+					failed = true
+					break
+				}
+			}
+			var msg ast.HSMSMessage
+			var ok bool
+			o := real.Try(func() { msg, ok = hsms.Parse(append([]byte(nil), good...)) })
+			c.NoteBulk(8, 8)
+			if o.Panicked || !ok || !bytes.Equal(msg.ToBytes(), good) {
+				c.Violation("C03/rejects-well-formed/after-a-long-run-of-refused-frames", fmt.Sprintf("round %d (after %d refused frames in this process): hsms.Parse(%x): ok=%v %s", round, (round+1)*7, clipB(good), ok, o), c03Case{Hex: hex.EncodeToString(good), Fault: "long-run"})
+				failed = true
+			}
+		}
+		c.Class("long-run-of-refused-frames-then-a-good-one")
+	}
+	c.Required = []string{"long-run-of-refused-frames-then-a-good-one", "fault-seeds", "ref-accepts/valid/nest-with-siblings", "ref-rejects/append/item-behind-a-nest", "ref-accepts/valid/longer-than-16MiB", "ref-accepts/valid/nonminimal-single", "ref-rejects/truncate/patched", "ref-rejects/append/patched", "ref-rejects/control/with-text", "ref-accepts/set/length", "ref-rejects/set/length", "ref-rejects/set/format", "ref-accepts/random/item-soup"}
 }
 
 func replayC03(c *ctx, raw json.RawMessage) {
